@@ -300,6 +300,7 @@ impl UnusedVariableVisitor {
     fn process_unused_type_params(
         &mut self,
         type_param_info: &TypeParamInfo,
+        fun_name_position: Option<&Position>,
         open_paren: &Position,
     ) {
         let params = &type_param_info.params;
@@ -338,14 +339,28 @@ impl UnusedVariableVisitor {
                 // type param, and `>` is right after the last one (before open paren).
                 let first_tp = &params[0].0;
                 let last_tp = &params[params.len() - 1].0;
+                // Start at the end of the function's name, so any
+                // whitespace around `<` goes too. Without a name,
+                // `<` is one char before the first type param.
+                let (start_offset, line_number, column) = match fun_name_position {
+                    Some(fun_name_position) => (
+                        fun_name_position.end_offset,
+                        fun_name_position.end_line_number,
+                        fun_name_position.end_column,
+                    ),
+                    None => (
+                        first_tp.position.start_offset - 1,
+                        first_tp.position.line_number,
+                        first_tp.position.column.saturating_sub(1),
+                    ),
+                };
                 Position {
-                    // Start at `<` which is one char before the first type param
-                    start_offset: first_tp.position.start_offset - 1,
+                    start_offset,
                     // End at `>` which is right before the open paren
                     end_offset: open_paren.start_offset,
-                    line_number: first_tp.position.line_number,
+                    line_number,
                     end_line_number: last_tp.position.end_line_number,
-                    column: first_tp.position.column.saturating_sub(1),
+                    column,
                     end_column: open_paren.column,
                     path: Rc::clone(&tp.position.path),
                     vfs_path: tp.position.vfs_path.clone(),
@@ -512,7 +527,11 @@ impl Visitor for UnusedVariableVisitor {
         self.pop_scope();
 
         let type_param_info = self.type_param_info.pop().unwrap();
-        self.process_unused_type_params(&type_param_info, &fun_info.params.open_paren);
+        self.process_unused_type_params(
+            &type_param_info,
+            fun_info.name_sym.as_ref().map(|name_sym| &name_sym.position),
+            &fun_info.params.open_paren,
+        );
     }
 
     fn visit_expr_variable(&mut self, var: &Symbol) {
